@@ -5,7 +5,10 @@ import json, os, subprocess, sys
 name = sys.argv[1]
 rest = sys.argv[2:]
 dst = f"/verif/seeded/{name}"
-r = subprocess.run([os.path.join(os.path.dirname(os.path.abspath(__file__)), "mutant.py"), "seed_" + name, os.path.join(dst, "patch.diff")] + rest)
+meta0 = json.load(open(os.path.join(dst, "meta.json")))
+# a change that could not be rebased onto later fix: commits is applied to the tree it was written for
+base = ["--base", meta0["base_commit"]] if meta0.get("base_commit") else []
+r = subprocess.run([os.path.join(os.path.dirname(os.path.abspath(__file__)), "mutant.py"), "seed_" + name, os.path.join(dst, "patch.diff")] + rest + base)
 res = json.load(open(f"/tmp/rsv_mut/seed_{name}.result.json"))
 meta = json.load(open(os.path.join(dst, "meta.json")))
 meta.setdefault("checks", {})
